@@ -347,6 +347,43 @@ def correspondence(rep, ctx):
                     break
             all_lines += m.lines
             metas.append(m)
+    # failure atomicity, deterministically: a mutating call that raises leaves the inventory exactly as it was — the failing
+    # element / entry placed AFTER valid ones, every kind of failure (absent, duplicate, unparseable, outside the dataset,
+    # wrong type; bad amount, bad unit), both classes
+    for hp in (False, True):
+        C = rd.InventoryHP if hp else rd.Inventory
+        calls = [
+            ("remove(['H-3', 'Be-10'])", lambda i_: i_.remove(["H-3", "Be-10"])),
+            ("remove(['K-40', 40100000])", lambda i_: i_.remove(["K-40", 40100000])),
+            ("remove(['H-3', 'H-3'])", lambda i_: i_.remove(["H-3", "H-3"])),
+            ("remove(['C-14', '14C'])", lambda i_: i_.remove(["C-14", "14C"])),
+            ("remove(['H-3', 'C-14', 'Xx-1'])", lambda i_: i_.remove(["H-3", "C-14", "Xx-1"])),
+            ("remove(['H-3', 'Og-294'])", lambda i_: i_.remove(["H-3", "Og-294"])),
+            ("remove(['K-40', 1.5])", lambda i_: i_.remove(["K-40", 1.5])),
+            ("remove([Nuclide('C-14'), Nuclide('Be-10')])", lambda i_: i_.remove([rd.Nuclide("C-14"), rd.Nuclide("Be-10")])),
+            ("add({'H-3': 1.0, 'C-14': -1.0}, 'num')", lambda i_: i_.add({"H-3": 1.0, "C-14": -1.0}, "num")),
+            ("add({'H-3': 1.0, 'Xx-1': 1.0}, 'num')", lambda i_: i_.add({"H-3": 1.0, "Xx-1": 1.0}, "num")),
+            ("add({'H-3': 1.0}, 'furlongs')", lambda i_: i_.add({"H-3": 1.0}, "furlongs")),
+            ("add({'H-3': 1.0, 'He-3': 1.0}, 'Bq')", lambda i_: i_.add({"H-3": 1.0, "He-3": 1.0}, "Bq")),
+            ("add({'H-3': 1.0, 'H3': 2.0}, 'num')", lambda i_: i_.add({"H-3": 1.0, "H3": 2.0}, "num")),
+            ("subtract({'K-40': 1.0, 'C-14': float('nan')}, 'num')", lambda i_: i_.subtract({"K-40": 1.0, "C-14": float("nan")}, "num")),
+            ("subtract({'K-40': 1.0}, '')", lambda i_: i_.subtract({"K-40": 1.0}, "")),
+        ]
+        for label, fn in calls:
+            src = C({"H-3": 8, "C-14": 4, "K-40": 2}, "num")
+            before = inv_fp(src)
+            rep.dist("failure-atomicity")
+            rep.case(("failure-atomicity", hp, label))
+            try:
+                fn(src)
+                bad += 1
+                rep.violation("failing-input", f"{C.__name__}({{'H-3': 8, 'C-14': 4, 'K-40': 2}}, 'num').{label} did not raise",
+                              {"call": label}, True)
+            except Exception:  # noqa: BLE001
+                if inv_fp(src) != before:
+                    bad += 1
+                    rep.violation("failing-input", f"{C.__name__}({{'H-3': 8, 'C-14': 4, 'K-40': 2}}, 'num').{label} raised, but the inventory "
+                                  f"is now {dict(src.contents)!r}", {"call": label}, True)
     # results are independent objects: a decay result / scaled / summed inventory changed in place afterwards leaves the
     # inventory it was computed from untouched (all-stable, all-radioactive and mixed inventories, zero time included)
     for hp in (False, True):
